@@ -150,10 +150,20 @@ def siblings(ctx, obs, rule='SIB'):
         qt = D + 'TemporalDataset.' + m
         f = prog.func(qt)
         kws = set()
-        for c in ast.walk(f.node):
-            if isinstance(c, ast.Call) and isinstance(c.func, ast.Name) and c.func.id == 'TemporalDataset':
-                kws |= {k.arg for k in c.keywords}
+        open_kw = False
+        from ..rules.common import bound_args, has_open_kwargs
+        r_ = ctx.dep.result(qt)
+        for c in r_.calls:
+            if isinstance(c.node.func, ast.Name) and c.node.func.id == 'TemporalDataset':
+                cq = next((x for x in c.callees if x.endswith('.__init__')), None)
+                kws |= {k.arg for k in c.node.keywords if k.arg}
+                if cq:
+                    kws |= set(bound_args(prog, cq, c))
+                open_kw |= has_open_kwargs(prog, c)
         for need in ('measurements', 'descriptors', 'obs_descriptors', 'channel_descriptors', 'time_descriptors'):
+            if need not in kws and open_kw:
+                obs.unk(rule, qt, f'override passes {need}', 'the constructor receives a mapping whose keys are not all known', where(prog, f, f.node))
+                continue
             obs.check(need in kws, rule, qt, f'override passes {need}', f'{qt} builds a TemporalDataset without `{need}`', '',
                       where(prog, f, f.node))
     # to_dict of the subclass writes a superset of the base class's keys
